@@ -160,7 +160,9 @@ def run_case(pos_i, path, cash, reward, script):
                     # end late without executing anything - from here on the episode is properly over
                     ruin_raised = False
                 else:
-                    sig = KF_ACCEPTED if (ruin_raised and after != before) else None
+                    # the known finding covers only the case where ruin was found at the END of a step that raised (the refusal of
+                    # an insolvent DECISION sets the done flag before the reward is computed, so nothing may be accepted after it)
+                    sig = KF_ACCEPTED if (ruin_raised == "end" and after != before) else None
                     out.append(("step accepted after the episode had ended (returned done=%r; account %r -> %r)" % (ret[2], before, after), sig))
                     if after != before and len(env.broker.track_record) > ntr:
                         for t in env.broker.track_record[-1].trades:
@@ -187,7 +189,7 @@ def run_case(pos_i, path, cash, reward, script):
                 sig = tb_signature(exc)
                 out.append(("the step in which the account is found insolvent (decision-time NLV %s) raised %r instead of returning done"
                             % (float(nlv_dec), exc), "step-raises-at-ruin:" + sig))
-                ruin_raised = True
+                ruin_raised = "dec"
             ended = True
             valuation_check(led, "after the refused decision %d" % k)
             continue
@@ -210,7 +212,7 @@ def run_case(pos_i, path, cash, reward, script):
                 sig = tb_signature(exc)
                 out.append(("the step during which the account became insolvent (NLV %s) raised %r instead of returning done"
                             % (float(nlv_end), exc), "step-raises-at-ruin:" + sig))
-                ruin_raised = True
+                ruin_raised = "end"
             ended = True
         else:
             if exc is not None:
